@@ -113,7 +113,9 @@ def gen_plan(ch: Chooser, tier: str) -> dict[str, Any]:
         t = ch.float(3.0, horizon * 0.6)
         life = ch.choice([4, 60])
         pk = 'clusterkopfpeerings' if clusterwide else 'kopfpeerings'
-        for ns in ([None] if clusterwide else namespaces):
+        # (the rival may show up in some of the namespaces only: one is enough to pause the whole operator)
+        rival_ns = [None] if clusterwide else (namespaces if ch.bool(0.6) else [ch.choice(namespaces)])
+        for ns in rival_ns:
             actions.append({'t': t, 'do': 'peer-set', 'identity': 'rival', 'priority': 100, 'lifetime': life,
                             'kind': pk, 'ns': ns})
             if life == 60:
